@@ -191,7 +191,11 @@ func VerifHarness_C04_ScheduleTies_4() { verifC04ScheduleTies(4) }
 // C04-O1c: many sources.  K sources with exactly one record each (source 0
 // with 1+extra), all timestamps symbolic: every relative order of the first
 // records, hence every shape the merge heap can take for K entries.
-func verifC04MergeWide(K, extra int) {
+func verifC04MergeWide(K, extra int) { verifC04MergeWideTs(K, extra, 255) }
+
+// maxTs bounds the symbolic timestamps: with few distinct values (many ties)
+// the number of distinguishable orders stays small, so many more sources fit.
+func verifC04MergeWideTs(K, extra int, maxTs byte) {
 	var iters []logiter
 	type rec struct {
 		src, idx int
@@ -208,7 +212,9 @@ func verifC04MergeWide(K, extra int) {
 		for j := 0; j < n; j++ {
 			// only the relative order of timestamps matters to a merge: 8-bit
 			// symbolic values realise every order (ties included) of up to 256 records
-			ts := uint64(vsymByte("ts"))
+			tb := vsymByte("ts")
+			vsymAssume(tb <= maxTs)
+			ts := uint64(tb)
 			vsymAssume(prev <= ts)
 			prev = ts
 			recs = append(recs, logstorage.Record{Timestamp: otelstorage.Timestamp(ts), Body: strconv.Itoa(s) + ":" + strconv.Itoa(j)})
@@ -241,5 +247,8 @@ func verifC04MergeWide(K, extra int) {
 }
 
 func VerifHarness_C04_MergeWide_6x1() { verifC04MergeWide(6, 1) }
+func VerifHarness_C04_MergeWideTies_10() { verifC04MergeWideTs(10, 1, 1) }
+func VerifHarness_C04_MergeWideTies_16() { verifC04MergeWideTs(16, 1, 1) }
+func VerifHarness_C04_MergeWideTies3_10() { verifC04MergeWideTs(10, 1, 2) }
 func VerifHarness_C04_MergeWide_8()   { verifC04MergeWide(8, 0) }
 func VerifHarness_C04_MergeWide_9()   { verifC04MergeWide(9, 0) }
